@@ -75,7 +75,7 @@ type Line struct {
 	NoPost bool              `json:"nopost,omitempty"`
 }
 
-var vars = []string{"a", "b", "c", "m", "n", "ta", "st", "s", "t", "tm"}
+var vars = []string{"a", "b", "c", "m", "n", "ta", "st", "s", "t", "tm", "sv"}
 var sliceVars = []string{"a", "b", "c", "ta"}
 var nilV = V{T: "nil"}
 
@@ -97,6 +97,10 @@ func lit(v V) string {
 			return "true"
 		}
 		return "false"
+	case "maplit0":
+		return "{}"
+	case "maplit1":
+		return "{\"k\": 7}"
 	case "listlit":
 		return "[1]"
 	case "listelem": // an unhashable key that arrives wrapped in an interface (an element of a list of lists)
@@ -151,6 +155,18 @@ func src(o Op) string {
 		return o.X + "." + o.S + " = " + lit(o.V)
 	case "fieldget":
 		return o.X + "." + o.S
+	case "bindelem":
+		return o.Y + " = " + o.X + "[" + lit(o.I) + "]"
+	case "bindfield":
+		return o.Y + " = " + o.X + "." + o.S
+	case "getvar":
+		return o.X
+	case "aliasfield":
+		return o.Y + " = " + o.X + ".M"
+	case "fieldmapget":
+		return o.X + ".M[" + lit(o.I) + "]"
+	case "fieldmapset":
+		return o.X + ".M[" + lit(o.I) + "] = " + lit(o.V)
 	}
 	return "nil"
 }
@@ -191,7 +207,7 @@ func newWorld() *world {
 	for _, n := range vars {
 		e.Define(n, nil)
 	}
-	if _, err := vm.Execute(e, nil, "wr = func(s) { s[0] = 7 }\nkk = [[1]]\nkm = {\"k\": {\"z\": 1}}\nmake(type T, make(struct { A int64, B string }))"); err != nil {
+	if _, err := vm.Execute(e, nil, "wr = func(s) { s[0] = 7 }\nkk = [[1]]\nkm = {\"k\": {\"z\": 1}}\nmake(type T, make(struct { A int64, B string, M map[string]int64 }))"); err != nil {
 		panic(err)
 	}
 	return &world{e}
@@ -211,7 +227,8 @@ func (w *world) get(n string) reflect.Value {
 func (w *world) observe(l *Line) {
 	l.Post = map[string]PV{}
 	l.Maps = map[string][][]V{}
-	l.Fields = map[string]V{"A": nilV, "B": nilV}
+	l.Fields = map[string]V{"A": nilV, "B": nilV, "M": nilV}
+	l.Maps["stM"] = [][]V{}
 	l.Share = []Share{}
 	type win struct {
 		ptr  uintptr
@@ -256,8 +273,19 @@ func (w *world) observe(l *Line) {
 				p.T = "struct"
 				l.Fields["A"] = proj(rv.FieldByName("A").Interface())
 				l.Fields["B"] = proj(rv.FieldByName("B").Interface())
+				if mf := rv.FieldByName("M"); mf.IsValid() && mf.Kind() == reflect.Map && !mf.IsNil() {
+					l.Fields["M"] = V{T: "tmap"}
+					pairs := [][]V{}
+					for _, k := range mf.MapKeys() {
+						pairs = append(pairs, []V{proj(k.Interface()), proj(mf.MapIndex(k).Interface())})
+					}
+					l.Maps["stM"] = pairs
+				}
 			case reflect.String:
 				p.T = "str"
+				if n == "sv" { // a scalar read into a variable: its value is observed by reading the variable
+					break
+				}
 				str := rv.String()
 				p.Len = len(str)
 				for i := 0; i < len(str); i++ {
@@ -319,7 +347,7 @@ func (w *world) do(o Op) Line {
 		r.K = "panic"
 	case err != nil:
 		r.K = "err"
-	case o.Op == "read" || o.Op == "mapget" || o.Op == "len" || o.Op == "in" || o.Op == "fieldget":
+	case o.Op == "read" || o.Op == "mapget" || o.Op == "len" || o.Op == "in" || o.Op == "fieldget" || o.Op == "fieldmapget" || o.Op == "getvar":
 		r.K = "val"
 		r.V = proj(res)
 	}
@@ -484,6 +512,24 @@ func opPool(rng *rand.Rand, w *world) Op {
 	case 23:
 		return Op{Op: "structnew", X: "st"}
 	case 24:
+		switch rng.Intn(11) {
+		case 8:
+			return Op{Op: "bindfield", X: "st", Y: "sv", S: []string{"A", "B"}[rng.Intn(2)]}
+		case 9:
+			return Op{Op: "bindelem", X: []string{"ta", "a"}[rng.Intn(2)], Y: "sv", I: intV(int64(rng.Intn(2)))}
+		case 10:
+			return Op{Op: "getvar", X: "sv"}
+		case 0:
+			return Op{Op: "fieldset", X: "st", S: "M", V: []V{{T: "maplit0"}, {T: "maplit1"}, intV(5)}[rng.Intn(3)]}
+		case 1:
+			return Op{Op: "aliasfield", X: "st", Y: "tm"}
+		case 2:
+			return Op{Op: "fieldmapget", X: "st", I: []V{strV("k"), strV("x")}[rng.Intn(2)]}
+		case 3:
+			return Op{Op: "fieldmapset", X: "st", I: []V{strV("k"), strV("x")}[rng.Intn(2)], V: []V{intV(5), strV("s"), intV(0)}[rng.Intn(3)]}
+		case 4:
+			return Op{Op: "mapset", X: "tm", I: strV("k"), V: intV(9)}
+		}
 		fv := []V{intV(5), strV("z"), {T: "flt", S: "2.5", I: 2}}
 		return Op{Op: "fieldset", X: "st", S: []string{"A", "B", "Z"}[rng.Intn(3)], V: fv[rng.Intn(len(fv))]}
 	}
